@@ -670,7 +670,7 @@ pub fn check_protocol(run: &mut Run, case_id: &str, p: &Prepared, ops: &[Op]) {
             let cls = if p.mode == 1 && !tclass.is_empty() {
                 tclass
             } else if p.mode == 1 && rest.is_empty() && matches!(len, Ok(l) if l > (1usize << 60)) || (p.mode == 1 && len.is_err()) {
-                "taiko-gradual-len-underflow"
+                "taiko-gradual-first-two-objects"
             } else {
                 ""
             };
